@@ -33,6 +33,30 @@ def compile_src(src, opts=None, as_dict=False):
     return cc(src, dict(o) if as_dict else CO(**o))
 
 
+def directive_options(src, base):
+    """The harness's own reading of the '# pytrapic:' rule (property C15): returns the option dict that the
+    directives of the main source turn `base` into."""
+    from .common import OPTION_NAMES
+
+    text = src[""] if isinstance(src, dict) else src
+    o = dict(OPTION_DEFAULTS)
+    o.update(base or {})
+    for line in text.split("\n"):
+        st = line.strip()
+        if not st.startswith("#") or "pytrapic:" not in st:
+            continue
+        rest = st.split("pytrapic:", 1)[1]
+        for tag in rest.split(","):
+            tag = tag.strip().replace("-", "_")
+            val = True
+            if tag.startswith("no_"):
+                val = False
+                tag = tag[3:].strip()
+            if tag in OPTION_NAMES:
+                o[tag] = val
+    return o
+
+
 _NUM = re.compile(r"(?<![\w.])-?\d+(?:\.\d+)?(?![\w.])")
 
 
@@ -55,10 +79,10 @@ def literals(src, limit=24):
 CAPS = dict(quick=dict(max_steps=60000, max_effects=120), thorough=dict(max_steps=400000, max_effects=600))
 
 
-def run_vm(code, env_seed, lits=(), funcs=None, meta=None, max_steps=60000, max_effects=120, prog=None):
+def run_vm(code, env_seed, lits=(), funcs=None, meta=None, max_steps=60000, max_effects=120, prog=None, soft=False):
     """-> dict(status, effects, events, stat, steps) ; status 'unmodelled' if the machine cannot execute it"""
     try:
-        vm = VM(prog or code, Env(env_seed, lits), funcs=funcs, meta=meta, max_steps=max_steps, max_effects=max_effects)
+        vm = VM(prog or code, Env(env_seed, lits), funcs=funcs, meta=meta, max_steps=max_steps, max_effects=max_effects, soft=soft)
         st = vm.run()
     except Unmodelled as e:
         return dict(status="unmodelled", reason=str(e), effects=[], events=[], stat={}, steps=0)
@@ -94,7 +118,7 @@ def compare_traces(a, b, name_a="vm", name_b="ref"):
         if not same_effect(ea[i], eb[i]):
             return "differ", dict(kind="effect-differs", index=i, **{name_a: ea[max(0, i - 2) : i + 2], name_b: eb[max(0, i - 2) : i + 2]})
     sa, sb = a["status"], b["status"]
-    done = ("end", "hcf")
+    done = ("end", "hcf", "machine-error")
     if len(ea) != len(eb):
         short, sshort, long_, other = (name_a, sa, eb, name_b) if len(ea) < len(eb) else (name_b, sb, ea, name_a)
         if sshort in done:
